@@ -47,6 +47,9 @@ impl Wait for HWait {
             HW_LAST_AT = at as *const AtomicUsize as usize;
             HW_LAST_WC = wc as *const AtomicUsize as usize;
         }
+        unsafe {
+            hw_check_args(seq, at as *const AtomicUsize as usize, wc as *const AtomicUsize as usize);
+        }
         rt::before(K_CONDWAIT, at as *const AtomicUsize as usize);
     }
     fn notify(&self) {
@@ -518,6 +521,8 @@ include!("mq_handles.rs");
 include!("mq_iharness.rs");
 #[cfg(kani)]
 include!("mq_futures.rs");
+#[cfg(not(kani))]
+include!("mq_dispatch.rs");
 
 #[cfg(kani)]
 mod proofs_s {
@@ -638,25 +643,35 @@ mod proofs_s {
     h3l!(s11_drop_queue_mpmc_n2, s_drop_queue, MPMC<Pay>, 2, true);
     h3l!(s11_drop_queue_mpmc_n4, s_drop_queue, MPMC<Pay>, 4, true);
 
+    macro_rules! hi {
+        ($name:ident, $f:ident, $rw:ty, $($arg:expr),*) => {
+            #[kani::proof]
+            #[kani::unwind(4)]
+            #[kani::stub(crate::memory::ToFree::delete, crate::memory::verif_contracts::vf_delete_stub)]
+            fn $name() {
+                unsafe { $f::<$rw>($($arg),*) }
+            }
+        };
+    }
     // ---- layer I: real operations under the protocol environment
-    h3!(i1_send_multi_bcast_n2_b2, i_try_send, BCast<Pay>, 2, 2, false, SendKind::Multi, 2);
-    h3!(i1_send_multi_bcast_n2_b3, i_try_send, BCast<Pay>, 2, 2, false, SendKind::Multi, 3);
-    h3!(i1_send_multi_mpmc_n2_b2, i_try_send, MPMC<Pay>, 2, 1, true, SendKind::Multi, 2);
-    h3!(i1_send_single_bcast_n2_b2, i_try_send, BCast<Pay>, 2, 2, false, SendKind::Single, 2);
-    h3!(i1_send_single_mpmc_n2_b2, i_try_send, MPMC<Pay>, 2, 1, true, SendKind::Single, 2);
-    h3!(i1_send_multi_bcast_n1_b2, i_try_send, BCast<Pay>, 1, 1, false, SendKind::Multi, 2);
-    h3!(i1_send_multi_bcast_n4_b3, i_try_send, BCast<Pay>, 4, 2, false, SendKind::Multi, 3);
-    h3!(i2_recv_shared_bcast_n2_b2, i_try_recv, BCast<Pay>, 2, 2, false, 2, true);
-    h3!(i2_recv_shared_bcast_n2_b3, i_try_recv, BCast<Pay>, 2, 2, false, 3, true);
-    h3!(i2_recv_shared_mpmc_n2_b2, i_try_recv, MPMC<Pay>, 2, 1, true, 2, true);
-    h3!(i2_recv_shared_mpmc_n2_b3, i_try_recv, MPMC<Pay>, 2, 1, true, 3, true);
-    h3!(i2_recv_sole_bcast_n2_b2, i_try_recv, BCast<Pay>, 2, 2, false, 2, false);
-    h3!(i2_recv_sole_mpmc_n2_b2, i_try_recv, MPMC<Pay>, 2, 1, true, 2, false);
-    h3!(i2_recv_shared_bcast_n1_b2, i_try_recv, BCast<Pay>, 1, 1, false, 2, true);
-    h3!(i2_recv_shared_bcast_n4_b3, i_try_recv, BCast<Pay>, 4, 2, false, 3, true);
-    h3!(i7_view_bcast_n2_b2, i_try_recv_view, BCast<Pay>, 2, 2, false, 2);
-    h3!(i7_view_mpmc_n2_b2, i_try_recv_view, MPMC<Pay>, 2, 1, true, 2);
-    h3!(i7_view_bcast_n1_b3, i_try_recv_view, BCast<Pay>, 1, 2, false, 3);
+    hi!(i1_send_multi_bcast_n2_b2, i_try_send, BCast<Pay>, 2, 1, false, SendKind::Multi, 2);
+    hi!(i1_send_multi_bcast_n2_b3, i_try_send, BCast<Pay>, 2, 2, false, SendKind::Multi, 3);
+    hi!(i1_send_multi_mpmc_n2_b2, i_try_send, MPMC<Pay>, 2, 1, true, SendKind::Multi, 2);
+    hi!(i1_send_single_bcast_n2_b2, i_try_send, BCast<Pay>, 2, 1, false, SendKind::Single, 2);
+    hi!(i1_send_single_mpmc_n2_b2, i_try_send, MPMC<Pay>, 2, 1, true, SendKind::Single, 2);
+    hi!(i1_send_multi_bcast_n1_b2, i_try_send, BCast<Pay>, 1, 1, false, SendKind::Multi, 2);
+    hi!(i1_send_multi_bcast_n4_b3, i_try_send, BCast<Pay>, 4, 2, false, SendKind::Multi, 3);
+    hi!(i2_recv_shared_bcast_n2_b2, i_try_recv, BCast<Pay>, 2, 1, false, 2, true);
+    hi!(i2_recv_shared_bcast_n2_b3, i_try_recv, BCast<Pay>, 2, 2, false, 3, true);
+    hi!(i2_recv_shared_mpmc_n2_b2, i_try_recv, MPMC<Pay>, 2, 1, true, 2, true);
+    hi!(i2_recv_shared_mpmc_n2_b3, i_try_recv, MPMC<Pay>, 2, 1, true, 3, true);
+    hi!(i2_recv_sole_bcast_n2_b2, i_try_recv, BCast<Pay>, 2, 1, false, 2, false);
+    hi!(i2_recv_sole_mpmc_n2_b2, i_try_recv, MPMC<Pay>, 2, 1, true, 2, false);
+    hi!(i2_recv_shared_bcast_n1_b2, i_try_recv, BCast<Pay>, 1, 1, false, 2, true);
+    hi!(i2_recv_shared_bcast_n4_b3, i_try_recv, BCast<Pay>, 4, 2, false, 3, true);
+    hi!(i7_view_bcast_n2_b2, i_try_recv_view, BCast<Pay>, 2, 1, false, 2);
+    hi!(i7_view_mpmc_n2_b2, i_try_recv_view, MPMC<Pay>, 2, 1, true, 2);
+    hi!(i7_view_bcast_n1_b3, i_try_recv_view, BCast<Pay>, 1, 2, false, 3);
 
     // ---- S12 futures layer
     macro_rules! hf {
@@ -698,4 +713,41 @@ mod proofs_s {
     hf!(s12_drop_unirecv_bcast_n2, s_fut_drop_recv, BCast<Pay>, 2, 2, false, true);
     hf!(s12_drop_send_bcast_n2, s_fut_drop_send, BCast<Pay>, 2, 1, false);
     hf!(s12_drop_send_mpmc_n2, s_fut_drop_send, MPMC<Pay>, 2, 1, true);
+
+    // ---- I5: wait arguments under interference
+    hi!(i5_recv_args_sole_bcast_n2_b2, i_recv_wait_args, BCast<Pay>, 2, 1, false, 2, false, false);
+    hi!(i5_recv_args_shared_bcast_n2_b2, i_recv_wait_args, BCast<Pay>, 2, 1, false, 2, true, false);
+    hi!(i5_recv_args_shared_mpmc_n2_b2, i_recv_wait_args, MPMC<Pay>, 2, 1, true, 2, true, false);
+    hi!(i5_recv_view_args_bcast_n2_b2, i_recv_wait_args, BCast<Pay>, 2, 1, false, 2, false, true);
+    // ---- T: bounded own steps from frozen-others states
+    h3!(t1_try_send_bcast_n2, t_try_op, BCast<Pay>, 2, 2, false, 0, 24);
+    h3!(t1_try_send_mpmc_n2, t_try_op, MPMC<Pay>, 2, 1, true, 0, 24);
+    h3!(t3_try_recv_bcast_n2, t_try_op, BCast<Pay>, 2, 2, false, 1, 24);
+    h3!(t3_try_recv_mpmc_n2, t_try_op, MPMC<Pay>, 2, 1, true, 1, 24);
+    h3!(t4_try_view_bcast_n2, t_try_op, BCast<Pay>, 2, 2, false, 2, 24);
+    h3!(t4_try_view_mpmc_n2, t_try_op, MPMC<Pay>, 2, 1, true, 2, 24);
+
+    // ---- S12w: FutWait alone
+    macro_rules! hw {
+        ($name:ident, $f:ident, $($arg:expr),*) => {
+            #[kani::proof]
+            #[kani::unwind(12)]
+            #[kani::stub(std::thread::sleep, crate::multiqueue::verif_contracts::vf_sleep)]
+            fn $name() {
+                unsafe { $f($($arg),*) }
+            }
+        };
+    }
+    hw!(s12w_notify_0, s_futwait_notify, 0, false);
+    hw!(s12w_notify_1, s_futwait_notify, 1, false);
+    hw!(s12w_notify_2, s_futwait_notify, 2, false);
+    hw!(s12w_notify_9, s_futwait_notify, 9, false);
+    hw!(s12w_notify_all_0, s_futwait_notify, 0, true);
+    hw!(s12w_notify_all_2, s_futwait_notify, 2, true);
+    hw!(s12w_park_s00, s_futwait_park, 0, 0);
+    hw!(s12w_park_s11, s_futwait_park, 1, 1);
+    hw!(s12w_park_s21, s_futwait_park, 2, 1);
+    hw!(s12w_send_or_park_s00, s_futwait_send_or_park, 0, 0);
+    hw!(s12w_send_or_park_s11, s_futwait_send_or_park, 1, 1);
+    hw!(s12w_send_or_park_s21, s_futwait_send_or_park, 2, 1);
 }
